@@ -141,6 +141,33 @@ PLAN = {
                  "cnt (multiplicity in a list prefix) is defined by recursion on the prefix length; list.append extends it (A-LIB)",
                  "A-INF: float('inf') stored in a real-sorted field is a constant > 1e30"],
     ),
+    "C15": dict(
+        level="other",
+        bounded=[dict(module="rt.fnmon", fn="events_monitor", label="session documents, sample matrices and the capacity fit against the property's formulas")],
+        text="BOUNDED so far: run-time contracts on the real converters - _datetime_to_timestamp = floor(unix time / (60 x period)); _convert_to_ev: "
+             "arrival / departure = period index of connection / disconnection minus the period index of the start, stay capped at max_len, requested "
+             "energy = delivered energy (capped at max power x stay with force_feasible), ids copied, battery free capacity covers the request "
+             "(default and fitted two-stage batteries); get_evs / generate_events through a stubbed data client keep order and use one offset; "
+             "StochasticEvents._convert_ev_matrix per row; batt_cap_fn: charging at 32 A for the whole stay delivers exactly the request.",
+        note="no obligation is proved for C15 yet; datetime.timestamp() / pytz are trusted; bounded by the seeded input space written in the evidence",
+        explanation="bounded run-time contract monitor only (rt.fnmon.events_monitor)",
+        technique="run-time contract monitor on the real functions (bounded stand-in); deductive obligations pending",
+    ),
+    "C17": dict(
+        level="other",
+        bounded=[dict(module="rt.fnmon", fn="tariff_monitor", label="all bundled tariffs x every (month, day, weekday) x every breakpoint; interface / analysis alignment")],
+        text="EXHAUSTIVE over the finite part, BOUNDED otherwise: for each of the five bundled tariff files the real constructor and lookups "
+             "are run for every (month, day, weekday) triple (the only parts of a date the schedule choice depends on) and, around every "
+             "breakpoint of the day's schedule, at the breakpoint, +-1 minute, +1 second, 00:00 and 23:59 - the result must be total (no "
+             "exception), and equal the rate of the latest breakpoint at or before that time of day of the unique schedule that an independent "
+             "reading of the JSON file (cyclic inclusive seasons, weekday/weekend class) selects; one tariff object is used across all years; "
+             "get_tariffs = per-period lookup at start + k x period; Interface.get_prices / get_demand_charge aligned with simulation time "
+             "for start in {None, 0, 1, current, 7}; analysis.energy_cost = sum(price x power x dt), demand_charge = rate x peak power.",
+        note="no obligation is proved for C17 yet (Decimal / datetime arithmetic and list-of-tuple sorting are inside the verifier's reach but "
+             "not yet under contract); the date part is exhaustive, times of day are sampled at and around every breakpoint",
+        explanation="exhaustive over (tariff file, month, day, weekday); bounded over times of day, vector lengths, simulations (rt.fnmon.tariff_monitor)",
+        technique="run-time contract monitor on the real functions against an independent reading of the data files (exhaustive over dates, bounded otherwise); deductive obligations pending",
+    ),
     "C19": dict(
         level="other",
         bounded=[dict(module="rt.fnmon", fn="stochastic_monitor", label="operation sequences on StochasticNetwork against the FCFS model"),
